@@ -22,7 +22,7 @@ for p in props:
             'evidence_file': '/verif/evidence/%s.json' % pid,
             'replay_cmd_template': 'python3 run.py --replay {path}',
             'engine': 'll2c+cbmc' if not s.custom else s.engine,
-            'level_claimed': {'category': s.level, 'text': s.level_text or s.explanation, 'design_ref': 'DESIGN.md section 5 (%s)' % pid},
+            'level_claimed': {'category': s.level, 'text': s.level_text or ('Bounded symbolic model checking of the real header (every input within the stated bounds, decided by a SAT solver; bounds in evidence.coverage.bounds). ' + s.explanation), 'design_ref': 'DESIGN.md section 5 (%s)' % pid},
             'level_note': s.level_note or LEVEL_NOTE,
             'technique': s.technique or 'bounded symbolic execution of the real header (clang LLVM IR -> C -> cbmc/SAT), one operation from an arbitrary valid pre-state, unwinding assertions on',
         })
